@@ -44,7 +44,7 @@ ASSUMPTIONS = [
     'async / view style); the order of calls is a function of the case arguments (own PRNG seeded from them), so a replay repeats it',
 ]
 SHARDS = {'quick': 4, 'thorough': 16}
-TIMEOUT = {'quick': 600, 'thorough': 3000}
+TIMEOUT = {'quick': 900, 'thorough': 3600}
 ANCHORS = [
     ('pjrpc/server/validators/jsonschema.py', 'JsonSchemaValidator.validate_method'),
     ('pjrpc/server/validators/pydantic.py', 'PydanticValidator.validate_method'),
